@@ -18,6 +18,7 @@ import (
 	"context"
 	"sync"
 
+	"github.com/B1NARY-GR0UP/originium/pkg/verifhook"
 	"github.com/B1NARY-GR0UP/originium/pkg/watermark"
 )
 
@@ -75,6 +76,7 @@ func (o *oracle) readTs() uint64 {
 	readTs := o.nextTs - 1
 	o.readMark.Begin(readTs)
 	o.Unlock()
+	verifhook.Point("readTs.beforeWait")
 
 	// ensure current txn can read the latest value of txn at ts <= readTs
 	if err := o.commitMark.WaitForMark(context.Background(), readTs); err != nil {
@@ -133,6 +135,7 @@ func (o *oracle) cleanUpCommittedTxns() {
 	}
 
 	o.lastCleanUpTs = maxReadTs
+	verifhook.Event("cleanup.committedTxns")
 
 	// A new slice with a length of 0 but the same capacity as the original slice is created. The key points are:
 	// - It reuses the underlying array of the original slice.
